@@ -123,7 +123,7 @@ EDITS = [
 	p.available = 0
 }
 
-// Alive""", new="""	p.entities = p.entities[:1:1]
+// Alive""", new="""	p.entities = p.entities[:0]
 	p.next = 0
 	p.available = 0
 }
